@@ -73,6 +73,7 @@ def run(tier):
             f = (f5 + f7 + [{}])[0]
             cls = "structure" if r5["sfp"] != r7["sfp"] else "tokens-or-positions"
             check.violation({"class": "families-differ-" + cls, "kind": f.get("kind"), "detail": f.get("c"), "deviates": "5" if f5 else ("7" if f7 else "?"),
+                             "slot": progs.slot_of(f["path"]) if f.get("path") else None, "parent": progs.parent_slot(f["path"]) if f.get("path") else None,
                              "classref_chain": ".Class" in (f.get("path") or "") and any("/classref" in u for u in used),
                              "family": "empty-heredoc-flex" if (f.get("kind") == "ScalarHeredoc" and
                                                                   c01.family(tasks[k]["src"].encode("latin-1"), v7) == "empty-heredoc-flex") else "other"},
